@@ -60,6 +60,18 @@ var c06Pipelines = []string{
 	`numbers(6).iir(x->a%2,(x,l)->l+2).merge(numbers(6).combine((p,q)->p+q),(p,q)->p<q).size()`,
 	`numbers(16).map(x->slow(x)+a).multiUse({s:l->l.reduce((p,q)->p+q),c:l->l.combine((p,q)->p*b-q).size(),m:l->l.map(x->slow(x)*a).last()})`,
 	`numbers(16).number((i,x)->i+x+a).multiUse({u:l->l.map(x->slow(x)).combine((p,q)->p+q).sum(),v:l->l.accept(x->slow(x)%2=b%2).size()})`,
+	// every closure-calling stage as a source of merge (each source is iterated by its own goroutine)
+	`numbers(8).number((i,x)->x*2+a%2).merge(numbers(8).compact((p,q)->p+1=q-1),(p,q)->p<q).sum()`,
+	`numbers(8).combine((p,q)->p+q+a%2).merge(numbers(8).combine3((p,q,r)->p+q+r),(p,q)->p<q).sum()`,
+	`numbers(8).combineN(2,w->w[0]+w[1]).merge(numbers(8).iir(x->x,(x,o)->o+x),(p,q)->p<q).mapReduce(b,(s,x)->s*3+x)`,
+	`numbers(8).iirCombine(x->x,(p,q,o)->o+q-p+1).merge(numbers(8).fsm((s,x)->goto((s.state+x)%3)).map(s->s.state),(p,q)->p<q).sum()+a`,
+	`numbers(8).cross([1,2],(p,q)->p*2+q).merge(numbers(8).accept(x->x%2=a%2).number((i,x)->x+i),(p,q)->p<q).sum()`,
+	`numbers(8).compact((p,q)->p=q).number((i,x)->x+i).merge(numbers(8).map(x->x*2).compact((p,q)->p=q+b*0),(p,q)->p<q).reduce((p,q)->p*2+q)`,
+	// helper closures bound by let, called from the closures of parallel stages
+	`let add=(p,q)->p*2+q; numbers(16).map(x->add(x,slow(x)+a)).sum()`,
+	`let add=(p,q)->p*2+q; let sq=x->add(x,x); numbers(16).map(x->sq(slow(x))+add(b,x)).combine((p,q)->add(p,q)).sum()`,
+	`let pick=(p,q,r)->if p then q else r; numbers(30).accept(x->pick(slow(x)%2=a%2,true,false)).map(x->pick(x>b,x,0-x)).sum()`,
+	`func h(p,q) p*3-q; numbers(16).map(x->h(slow(x),x+a)).number((i,x)->h(i,x)).sum()`,
 	// multiUse consumers that return lazy lists (forced by multiUse itself, in lock step)
 	`numbers(16).number((i,x)->i+x+a).multiUse({u:l->l.combine((p,q)->p*b-q),v:l->l.combine3((p,q,r)->p+q-r+a),w:l->l.number((i,x)->x-i)})`,
 	`numbers(16).map(x->slow(x)+a).multiUse({u:l->l.iir(x->x,(x,o)->o+x*b),v:l->l.combineN(3,w->w[0]-w[2]),w:l->l.map(x->slow(x)).compact((p,q)->p=q)})`,
